@@ -167,3 +167,22 @@ pub fn must_reject(y: i128, mo: i128, d: i128, h: i128, mi: i128, s: i128, ns: i
     mo < 1 || mo > 12 || d < 1 || d > month_len(y, mo) || h > 24 || mi > 59 || s > 60 || ns > 1_000_000_000
         || (s == 60 && !(h == 23 && mi == 59 && (LEAP_DAYS.contains(&(y, mo, d)) || (y, mo, d) == (1971, 12, 31))))
 }
+
+/// IERS table as (UTC timestamp in seconds since 1900-01-01, TAI - UTC in seconds from then on), built from the civil dates
+pub fn leap_table() -> Vec<(i128, i128)> {
+    let mut t = vec![(day_index(1972, 1, 1) * 86_400, 10)];
+    for (i, (y, m, d)) in LEAP_DAYS.iter().enumerate() {
+        t.push(((day_index(*y, *m, *d) + 1) * 86_400, 11 + i as i128));
+    }
+    t
+}
+/// TAI - UTC (whole seconds) in force at a UTC count given in nanoseconds since 1900-01-01
+pub fn offset_at_utc_ns(u: i128) -> i128 {
+    let mut r = 0;
+    for (ts, d) in leap_table() {
+        if u >= ts * 1_000_000_000 {
+            r = d;
+        }
+    }
+    r
+}
